@@ -19,8 +19,8 @@ package format
 
 //@ func splitArgs(line) (prefix, args)
 //@   ensures#len len(args) >= 0
-//@   ensures#join splitjoin(rg(args), off(args) - 1, len(args) + 1) == str(sub(bytes(line), 0, len(line) - (hassuffix(bytes(line), "\n") ? 1 : 0)))   [C07]
-//@   ensures#nospace nospace(prefix) && (forall j in 0..len(args) :: nospace(args[j]))  [C07]
+//@   ensures#join splitjoin(rg(args), off(args) - 1, len(args) + 1) == str(sub(bytes(line), 0, len(line) - (hassuffix(bytes(line), "\n") ? 1 : 0)))   [C07 C03]
+//@   ensures#nospace nospace(prefix) && (forall j in 0..len(args) :: nospace(args[j]))  [C07 C03]
 //@   modifies nothing
 
 //@ func (*StanzaReader).ReadStanza(r) (s, err)
@@ -30,12 +30,14 @@ package format
 //@   loop 1 invariant -1 <= rangeindex && rangeindex < len(args) && (forall j in 0..rangeindex+1 :: isvalid(args[j]))
 //@   loop 1 decreases len(args) - rangeindex
 //@   loop 2 invariant s != nil && r.r != nil && len(s.Body) % 48 == 0 && isvalid(s.Type) && (forall j in 0..len(s.Args) :: isvalid(s.Args[j])) && issuffix(r.r.$rem, old(r.r.$rem)) && len(r.r.$rem) < len(old(r.r.$rem)) && old(r.err) == nil && fresh(s) && (rg(s.Body) == 0 || fresh(s.Body))
+//@   loop 2 invariant#size len(old(r.r.$rem)) - len(r.r.$rem) == len(lastret("ReadBytes",1,0)) + (len(s.Body) / 48) * 65           [C03 C07]
 //@   loop 2 decreases len(r.r.$rem)
 //@   ensures#sticky old(r.err) != nil ==> s == nil && err == old(r.err) && r.r.$rem == old(r.r.$rem)     [C07 C13 C16]
 //@   ensures#stored r.err == err                                                                           [C07 C13 C16]
 //@   ensures#reject err != nil ==> s == nil                                                                [C07 C14 C16]
 //@   ensures#valid err == nil ==> s != nil && isvalid(s.Type) && (forall j in 0..len(s.Args) :: isvalid(s.Args[j]))   [C07 C14 C16]
 //@   ensures#progress err == nil ==> len(r.r.$rem) < len(old(r.r.$rem)) && issuffix(r.r.$rem, old(r.r.$rem))          [C07 C14 C16]
+//@   ensures#size err == nil ==> len(old(r.r.$rem)) - len(r.r.$rem) == len(lastret("ReadBytes",1,0)) + (len(s.Body) / 48) * 65 + (4 * (len(s.Body) % 48) + 2) / 3 + 1   [C03 C07]
 //@   ensures#marker err == nil ==> lastret("splitArgs",1,0) == "->" && len(lastret("splitArgs",1,1)) >= 1                          [C03 C07 C16]
 //@   ensures#fields err == nil ==> s.Type == lastret("splitArgs",1,1)[0] && len(s.Args) == len(lastret("splitArgs",1,1)) - 1 && (forall j in 0..len(s.Args) :: s.Args[j] == lastret("splitArgs",1,1)[j + 1])   [C03 C07 C16]
 //@   ensures#argsnonnil err == nil ==> !isnil(s.Args)                                                              [C16]
@@ -63,7 +65,7 @@ package format
 //@   ensures#wrapstanza lasterr("ReadStanza",1) != nil ==> err != nil && wraps(err, lasterr("ReadStanza",1))     [C13 C14]
 //@   ensures#ok err == nil ==> h != nil && payload != nil && len(h.MAC) == 32       [C07 C03]
 //@   ensures#stanzas err == nil ==> (forall j in 0..len(h.Recipients) :: h.Recipients[j] != nil)
-//@   ensures#payload err == nil ==> issuffix(payload.$rem, old(input.$rem))           [C07 C12 C01]
+//@   ensures#payload err == nil ==> issuffix(payload.$rem, old(input.$rem))           [C07 C12 C01 C02]
 //@   ensures#payloadid err == nil ==> (id(payload) == id(input) || fresh(payload))   [C20]
 //@   fresh h when err == nil
 //@   fresh h.Recipients when err == nil && len(h.Recipients) > 0
